@@ -18,6 +18,7 @@ func c11(r *Report) {
 	const ver = "vcr/verifier"
 	r.Explanation = "Static decision of the structural conditions for effective, permanent, issuer-only revocation: (1) add-only: no gorm Delete on revocation / status-list models, every bitstring.setBit call sets (constant true), upserts of status list records replace all columns; (2) a network revocation is stored only through ValidateRevocation, subject-issuer == issuer, verification-method-issuer == issuer, key resolution at the revocation date, and proof verification; the store call has one owner; (3) the status-list verifier reports success only if no revocation-purpose entry has its bit set, uses only the list the credential names (downloaded list id == requested URL) and only after signature verification; (4) ordering on the issuing side: every re-issue of a status list credential happens inside a SQL transaction, after the row lock, from a record whose revocations were loaded in that same transaction (Preload(\"Revocations\")) or that was created in it; a new revocation row is created before the list is rebuilt and a duplicate maps to 'already revoked'; status-list index hand-out increments under a locking read inside the transaction and retries only on duplicate key; (5) the served list is the stored one only while it is far enough from expiry, otherwise it is re-signed."
 	r.NotDecided = []string{"row-lock semantics of each SQL engine and actual uniqueness under concurrency", "cryptographic validity", "that every node eventually receives the revocation (C07/C14)"}
+	gormZeroValue(r, "C11.sql.no-struct-condition", "a zero index/bit or empty id would drop the condition or the update", 1, nil, "vcr/revocation")
 	r.Assumptions = []string{"gorm Preload loads all associated rows inside the given transaction handle", "clause.Locking / UPDLOCK give exclusive row locks until commit"}
 
 	// (1) add-only
